@@ -257,6 +257,59 @@ func runC18(cfg config) *hx.Report {
 		return enc, true
 	}
 
+	// 32-bit-length fields at the boundaries of the reader's own buffering: the
+	// decoder reserves controlReadStep bytes and grows from there, so lengths just
+	// below / at / above its multiples (and the powers of two around them) are
+	// field boundaries in their own right.  Contents are runs with distinct end
+	// markers (cheap to write down for the model), each record is followed by
+	// another one so that a short or long read shows as a framing error.
+	step := int(transfer.VerifControlReadStep)
+	var lens32 []int
+	for _, k := range []int{1, 2, 3, 4} {
+		for _, d := range []int{-1, 0, 1} {
+			lens32 = append(lens32, k*step+d)
+		}
+	}
+	lens32 = append(lens32, step/2, step+step/2, 255, 256, 257, 65535)
+	if cfg.tier == "thorough" {
+		for _, k := range []int{5, 8, 16} {
+			lens32 = append(lens32, k*step-1, k*step, k*step+1)
+		}
+	}
+	for _, n := range lens32 {
+		if n <= 0 {
+			continue
+		}
+		bm := make([]byte, n)
+		for i := range bm {
+			bm[i] = 0xA5
+		}
+		bm[0], bm[n-1] = 0x01, 0x80
+		msg := transfer.FileResumeInfo{FileID: "boundary", StreamID: uint64(n), TotalChunks: uint32(n), Bitmap: bm, LastVerifiedChunk: 0x01020304, LastVerifiedHash: 0x1122334455667788}
+		rep.Count("enc:bitmap-length-boundary")
+		enc, ok := oneRecord(msg, true)
+		if !ok {
+			continue
+		}
+		// ... and in a sequence: the records after it must still decode
+		tail1, _ := transfer.VerifEncodeControl(transfer.FileDone{StreamID: 7, OK: true})
+		tail2, _ := transfer.VerifEncodeControl(nil)
+		in := append(append(append([]byte{}, enc...), tail1...), tail2...)
+		typ1, got1, c1, e1 := transfer.VerifDecodeControl(in)
+		okSeq := e1 == nil && typ1 == transfer.VerifTypeFileResumeInfo && c1 == len(enc) && reflect.DeepEqual(canonCtl(got1), canonCtl(msg))
+		if okSeq {
+			typ2, got2, c2, e2 := transfer.VerifDecodeControl(in[c1:])
+			okSeq = e2 == nil && typ2 == transfer.VerifTypeFileDone && c2 == len(tail1) && reflect.DeepEqual(got2, transfer.FileDone{StreamID: 7, OK: true})
+			if okSeq {
+				typ3, _, c3, e3 := transfer.VerifDecodeControl(in[c1+c2:])
+				okSeq = e3 == nil && typ3 == transfer.VerifTypeEnd && c3 == len(tail2)
+			}
+		}
+		rep.Evaluations++
+		if !okSeq {
+			rep.Violate("framing", fmt.Sprintf("FileResumeInfo with a %d-byte bitmap followed by FileDone and End does not decode to the same three records", n), map[string]any{"bitmap_len": n, "read_step": step})
+		}
+	}
 	for i := 0; i < nRec; i++ {
 		big := i%97 == 0
 		msg := genCtl(rng, big)
@@ -353,8 +406,58 @@ func runC18(cfg config) *hx.Report {
 	if cfg.tier == "thorough" {
 		nHdr = 600
 	}
-	for i := 0; i < nHdr; i++ {
-		m := genManifest(rng, i%7 == 3)
+	// manifests whose JSON has exactly a boundary length of the reader's buffering
+	exactManifest := func(target int) (manifest.Manifest, bool) {
+		m := manifest.Manifest{Root: "exact"}
+		jsonLen := func() int {
+			enc, err := transfer.VerifWriteControlHeader(m)
+			if err != nil {
+				return -1
+			}
+			return len(enc) - 8
+		}
+		for i := 0; ; i++ {
+			l := jsonLen()
+			if l < 0 || l > target {
+				return m, false
+			}
+			if l == target {
+				return m, true
+			}
+			if target-l < 1100 {
+				// a last item whose path is padded to the byte (one JSON byte per 'a')
+				m.Items = append(m.Items, manifest.FileItem{RelPath: "z", ID: "00000000000000ff", Size: 1})
+				m.TotalBytes++
+				m.FileCount++
+				l = jsonLen()
+				if l < 0 || l > target || target-l > 1000 {
+					return m, false
+				}
+				m.Items[len(m.Items)-1].RelPath += strings.Repeat("a", target-l)
+				return m, jsonLen() == target
+			}
+			it := manifest.FileItem{RelPath: fmt.Sprintf("d%05d/%s", i, strings.Repeat("n", 900)), ID: fmt.Sprintf("%016x", i), Size: int64(i)}
+			m.TotalBytes += it.Size
+			m.FileCount++
+			m.Items = append(m.Items, it)
+		}
+	}
+	var hdrs []manifest.Manifest
+	for _, k := range []int{1, 2, 3} {
+		for _, d := range []int{-1, 0, 1} {
+			if m, ok := exactManifest(k*step + d); ok {
+				hdrs = append(hdrs, m)
+				rep.Count("header:json-length-boundary")
+			}
+		}
+	}
+	for i := 0; i < nHdr+len(hdrs); i++ {
+		var m manifest.Manifest
+		if i < len(hdrs) {
+			m = hdrs[i]
+		} else {
+			m = genManifest(rng, i%7 == 3)
+		}
 		enc, err := transfer.VerifWriteControlHeader(m)
 		rep.Evaluations++
 		rep.Count("header")
